@@ -28,6 +28,6 @@ def make_plan(ths, tier, rnd):
 
 
 def run(tier, replay):
-    return modelcheck.run(PROP, tier, replay, make_plan,
+    return modelcheck.run(PROP, tier, replay, make_plan, design=[("pend", {"maxels": 1, "maxid": 3, "maxasserts": 2, "thorough_only": {"maxels": 2, "maxid": 4, "maxasserts": 2}})],
                           explanation="families of one fact set: direct close vs close_until stopping at evaluation j (all j up "
                                       "to the bound) then resumed, with and without further assertions in between")
